@@ -161,6 +161,9 @@ impl<'a> YamlEmitter<'a> {
 
     /// Render strings containing multiple lines in [literal style].
     ///
+    /// Strings which that style cannot represent as they are (for instance those starting with a
+    /// space or ending with several line breaks) are still rendered as quoted strings.
+    ///
     /// # Examples
     ///
     /// ```rust
@@ -220,10 +223,7 @@ impl<'a> YamlEmitter<'a> {
             Yaml::Sequence(ref v) => self.emit_sequence(v),
             Yaml::Mapping(ref h) => self.emit_mapping(h),
             Yaml::Value(Scalar::String(ref v)) => {
-                if self.multiline_strings
-                    && v.contains('\n')
-                    && char_traits::is_valid_literal_block_scalar(v)
-                {
+                if self.is_literal_block(v) {
                     self.emit_literal_block(v)?;
                 } else if need_quotes(v) {
                     escape_str(self.writer, v)?;
@@ -277,6 +277,39 @@ impl<'a> YamlEmitter<'a> {
         }
     }
 
+    /// Check whether the string `v` is written as a literal block scalar.
+    ///
+    /// With `multiline_strings`, this is the style of the strings of several lines, except for
+    /// those that [`Self::emit_literal_block`] cannot write so that they read back unchanged. It
+    /// writes no indentation indicator and never asks for the trailing line breaks to be kept.
+    fn is_literal_block(&self, v: &str) -> bool {
+        if !(self.multiline_strings
+            && v.contains('\n')
+            && char_traits::is_valid_literal_block_scalar(v))
+        {
+            return false;
+        }
+        // The first non-empty line gives the block its indentation: there must be one and it
+        // must not start with a space.
+        let content = v.trim_start_matches('\n');
+        if content.is_empty() || content.starts_with(' ') {
+            return false;
+        }
+        // Clipping retains a single trailing line break.
+        if v.ends_with("\n\n") {
+            return false;
+        }
+        // The block is not indented at the root of the document: it cannot start with a tab and
+        // a line looking like a document marker would end it.
+        if self.level < 0 {
+            return !v.starts_with('\t')
+                && !v
+                    .lines()
+                    .any(|line| line.starts_with("---") || line.starts_with("..."));
+        }
+        true
+    }
+
     fn emit_literal_block(&mut self, v: &str) -> EmitResult {
         let ends_with_newline = v.ends_with('\n');
         if ends_with_newline {
@@ -321,7 +354,12 @@ impl<'a> YamlEmitter<'a> {
         } else {
             self.level += 1;
             for (cnt, (k, v)) in h.iter().enumerate() {
-                let complex_key = matches!(k, Yaml::Mapping(_) | Yaml::Sequence(_));
+                // A block scalar cannot be an implicit key either.
+                let complex_key = match *k {
+                    Yaml::Mapping(_) | Yaml::Sequence(_) => true,
+                    Yaml::Value(Scalar::String(ref s)) => self.is_literal_block(s),
+                    _ => false,
+                };
                 if cnt > 0 {
                     writeln!(self.writer)?;
                     self.write_indent()?;
